@@ -111,18 +111,49 @@ def run(ctx):
       'exit_code_ written only under code != ExitSuccess; Build returns ExitSuccess only when '
       '!more_to_do(); RunBuild returns Build\'s status')
     build = prog.fn('Builder::Build')
+    # predicates that say "the command succeeded": `status == ExitSuccess`, `exit_status() == ExitSuccess`, and the
+    # accessors whose whole body is such a comparison (BuildResult::success, CommandCompleted::success)
+    success_fns = set()
+    for fn in prog.functions.values():
+        rets = list(fn.events('ret'))
+        if fn.retk == 'bool' and len(rets) == 1 and success_atom(rets[0].get('e')):
+            success_fns.add(fn.name)
+
+    def says_success(a):
+        a = strip(a)
+        return success_atom(a) or (isinstance(a, dict) and a.get('k') == 'call' and a.get('name') in success_fns)
+
+    def from_status(d):
+        return mentions_field(d, STATUS) or mentions_call(d, 'BuildResult::exit_status')
+
+    def records_failure(x):
+        # SetFailureCode(<the command's status>), or the same store written out: exit_code_ = <the command's status>
+        if x['k'] == 'call' and x.get('name') == 'Builder::SetFailureCode' and from_status(x['args'][0]):
+            return True
+        return x['k'] == 'asg' and x['op'] == '=' and mentions_field(x['l'], 'Builder::exit_code_') and \
+            from_status(deep_resolve(build, x['r']))
+
+    def not_known_success(b, i, s):
+        # a path on which the command is known to have succeeded has no failure code to record
+        return not any(pol is True and says_success(a) for k, pol, a in build.edge_facts(b, i))
     for e in build.calls('Builder::FinishCommand'):
-        must_pass(ctx, 'C05.O1', build,
-                  lambda x: x['k'] == 'call' and x.get('name') == 'Builder::SetFailureCode' and
-                  mentions_call(x['args'][0], 'BuildResult::exit_status'),
+        must_pass(ctx, 'C05.O1', build, records_failure,
                   lambda x: x['k'] in ('ret', 'exit') or
                   (x['k'] == 'call' and x.get('name') == 'Plan::more_to_do'),
-                  'SetFailureCode(result.exit_status()) follows FinishCommand',
-                  'FinishCommand-without-SetFailureCode', start=e)
+                  'the failed command\'s status is recorded (SetFailureCode(result.exit_status())) after FinishCommand',
+                  'FinishCommand-without-SetFailureCode', start=e, edge_ok=not_known_success)
     for f, e, kind, rhs in field_writes(prog, 'Builder::exit_code_'):
         if e.get('init'):
             ctx.check('C05.O1', is_enum('ExitSuccess')(rhs) or const_value(rhs) == 0, f.name,
                       'exit_code_:init', f.where(e), 'exit_code_ initialised to ExitSuccess')
+            continue
+        r_ = strip(rhs)
+        if isinstance(r_, dict) and r_.get('k') == 'enum' and r_['n'] != 'ExitSuccess' and r_['n'].startswith('Exit'):
+            ctx.inst('C05.O1', f.where(e), 'exit_code_ assigned the failure constant %s' % r_['n'])
+            continue
+        facts = f.facts_at(e)
+        if fact_holds(facts, says_success, False):
+            ctx.inst('C05.O1', f.where(e), 'exit_code_ assigned where the command is known to have failed')
             continue
         guarded(ctx, 'C05.O1', f, e,
                 atom_cmp('==', anything, is_enum('ExitSuccess')), False,
